@@ -70,6 +70,11 @@ def _cases(tier):
     for op in OPS:
         for kind in ("ident", "badcopy"):
             cases.append({"nocopy": kind, "op": op})
+    # a value that cannot be copied arrives under a new key of a sub-snapshot that already has content (and next to other new keys)
+    for kind in ("ident", "badcopy"):
+        for prev in ("{'a': 1}", "{'a': 1, 'b': [2]}", "{'a': {'x': 1}}"):
+            for extra in ("", "assert s['n'] == 5"):
+                cases.append({"nocopy": kind, "op": "[k]", "prev": prev, "extra": extra})
     for kind in ("ident", "badcopy"):
         for ex in EXISTING:
             cases.append({"nocopy": kind, "op": "==", "existing": ex})
@@ -111,6 +116,13 @@ def _site(i, c):
         init = "Ident()" if c["nocopy"] == "ident" else "BadCopy(1)"
         val, prev = c["existing"]
         return "def test_%d():\n    v = %s\n    s = snapshot(%s)\n    assert v == s\n" % (i, val.replace("X", init), prev)
+    if "nocopy" in c and "prev" in c:
+        init = "Ident()" if c["nocopy"] == "ident" else "BadCopy(1)"
+        lines = ["v = %s" % init, "s = snapshot(%s)" % c["prev"], "assert s['a'] == %s" % ("1" if "'a': 1" in c["prev"] else "{'x': 1}")]
+        if c["extra"]:
+            lines.append(c["extra"])
+        lines.append("assert s['k'] == v")
+        return "def test_%d():\n" % i + "".join("    " + l + "\n" for l in lines)
     if "nocopy" in c:
         init = "Ident()" if c["nocopy"] == "ident" else "BadCopy(1)"
         return "def test_%d():\n    v = %s\n    s = snapshot()\n    %s\n" % (i, init, _cmp(c["op"]))
@@ -252,6 +264,20 @@ def _judge(cases):
             if "existing" in c:
                 if calls[i]["arg_text"].strip() != before_calls[i]["arg_text"].strip():
                     out.append(("non-copyable-value-recorded", "snapshot(%s) -> snapshot(%s)" % (before_calls[i]["arg_text"], calls[i]["arg_text"][:100])))
+                elif "UsageError" not in raised:
+                    out.append(("no-usage-error-for-non-copyable-value", raised[:200]))
+                else:
+                    out.append(None)
+                continue
+            if "prev" in c:
+                # other new keys may be created; the rejected value (or a placeholder for it) must not appear under its key
+                try:
+                    got = eval(calls[i]["arg_text"], mod.__dict__)
+                except Exception as e:  # noqa
+                    out.append(("written-argument-not-evaluable", "%r: %s" % (calls[i]["arg_text"][:100], e)))
+                    continue
+                if not isinstance(got, dict) or "k" in got:
+                    out.append(("non-copyable-value-recorded", "snapshot(%s) -> snapshot(%s)" % (c["prev"], calls[i]["arg_text"][:120])))
                 elif "UsageError" not in raised:
                     out.append(("no-usage-error-for-non-copyable-value", raised[:200]))
                 else:
